@@ -484,3 +484,38 @@ def explore_scenario(args):
     import time as _t
     return {"scn": scn, "runs": len(out), "dfs": n, "dfs_exhausted": exhausted, "traces": uniq,
             "wall": _t.time() - t0, "maxsteps": max([len(c) for c, _ in out] or [0])}
+
+
+def explore_around(args):
+    """Single pre-emptions in a window of one recorded schedule: for every step i in [lo, hi) of the schedule `choices`
+    and every other thread enabled there, replay choices[:i] + [that thread] and let the default policy continue.
+    Used to search next to a point where an execution left the model (drift-guided search)."""
+    scn, choices, lo, hi, limit = args
+    from .core import repo_on_path
+    repo_on_path()
+    import time as _t
+    t0 = _t.time()
+    build = builder(scn)
+    budget = scn.get("budget", 6000)
+    base, steps = explore.run_once(build, explore.Replay(choices), budget=budget)
+    out = [([c for (_, c) in steps], base)]
+    cands = []
+    for i in range(max(lo, 0), min(hi, len(steps))):
+        en, c = steps[i]
+        for alt in en:
+            if alt != c:
+                cands.append((i, alt))
+    if len(cands) > limit:
+        stride = len(cands) / float(limit)
+        cands = [cands[int(k * stride)] for k in range(limit)]
+    ch = [c for (_, c) in steps]
+    for i, alt in cands:
+        res, st = explore.run_once(build, explore.Replay(ch[:i] + [alt]), budget=budget)
+        out.append(([c for (_, c) in st], res))
+    seen, uniq = set(), []
+    for chs, evs in out:
+        key = repr([e for e in evs if e["k"] != "end"]) + repr({k: v for k, v in evs[-1].items() if k != "steps"})
+        if key not in seen:
+            seen.add(key)
+            uniq.append((chs, evs))
+    return {"scn": scn, "runs": len(out), "dfs": 0, "dfs_exhausted": False, "traces": uniq, "wall": _t.time() - t0, "maxsteps": len(steps)}
